@@ -1,6 +1,6 @@
 (* C09 - file data written through libext2fs reads back exactly: the proved part is how a request is
    cut into per-block rounds *)
-From E2V Require Import FileIO.Chunks FileIO.ChunksProofs.
+From E2V Require Import FileIO.Chunks FileIO.ChunksProofs FileIO.FileSpec FileIO.FileSpecProofs.
 Local Open Scope N_scope.
 
 (* every request, at every position and block size: the rounds start where the previous one ended,
@@ -16,3 +16,36 @@ Print Assumptions io_rounds_cover_request.
 
 Example chunks_example : io_chunks 1024 1000 2100 = [(0, 1000, 24); (1, 0, 1024); (2, 0, 1024); (3, 0, 28)].
 Proof. vm_compute. reflexivity. Qed.
+
+Local Close Scope N_scope.
+Local Open Scope nat_scope.
+
+(* the reference the implementation is run against, operation by operation: *)
+(* what was written is what is read back, whatever the file held before, at any position (a gap reads as zeros) *)
+Theorem read_after_write : forall l pos data, f_read (f_write l pos data) pos (length data) = data.
+Proof. exact read_after_write_lemma. Qed.
+Print Assumptions read_after_write.
+
+Theorem write_changes_only_its_range : forall l pos data i, data <> [] ->
+  nth i (f_write l pos data) 0 =
+  if i <? pos then nth i l 0 else if i <? pos + length data then nth (i - pos) data 0 else nth i l 0.
+Proof. exact write_nth. Qed.
+Print Assumptions write_changes_only_its_range.
+
+(* truncation forgets the tail for good: growing again reads zeros, not the old bytes *)
+Theorem set_size_keeps_prefix_and_zero_fills : forall l s i,
+  length (f_set_size l s) = s /\ nth i (f_set_size l s) 0 = if (i <? s) && (i <? length l) then nth i l 0 else 0.
+Proof. intros l s i. split; [apply set_size_length|apply set_size_nth]. Qed.
+Print Assumptions set_size_keeps_prefix_and_zero_fills.
+
+Theorem punch_zeroes_exactly_its_blocks : forall l bs a b i, a <= b ->
+  length (f_punch l bs a b) = length l /\
+  nth i (f_punch l bs a b) 0 = if (a * bs <=? i) && (i <? (b + 1) * bs) then 0 else nth i l 0.
+Proof. intros l bs a b i H. split; [apply punch_length; assumption|apply punch_nth; assumption]. Qed.
+Print Assumptions punch_zeroes_exactly_its_blocks.
+
+
+Example spec_example :
+  fst (f_step 4 (fst (f_step 4 (fst (f_step 4 [1; 2; 3] (FWrite 6 [9; 9]))) (FSetSize 5))) (FSetSize 8)) = [1; 2; 3; 0; 0; 0; 0; 0] /\
+  f_punch [1; 2; 3; 4; 5; 6; 7; 8; 9] 4 1 1 = [1; 2; 3; 4; 0; 0; 0; 0; 9].
+Proof. vm_compute. split; reflexivity. Qed.
